@@ -308,9 +308,24 @@ def coercionOfTable (tbl : List (String × String)) : Coercion :=
 /-- The coercion of the pandas that is installed now. -/
 def installed : Coercion := coercionOfTable Fsic.Generated.pandasCoercion
 
-/-- The model's reading of present entries (`str s` stays `str s`; an int in a column without missing entries
-    stays an int) is what the reflected table says. -/
+/-- Probes of string IDENTITY through the DataFrame (harness/reflect_tools.py): the empty string and strings with
+    leading / trailing / only whitespace, next to another str (`full`), next to a missing entry (`mixed`), and in a
+    column that holds nothing else (`alone`); `"same"` = the very same str came back. -/
+def edgeStringProbes : List String :=
+  ["empty", "space", "trail", "lead", "tabnl", "nl", "crlf", "both"].flatMap
+    (fun k => ["str_" ++ k ++ "_full", "str_" ++ k ++ "_mixed", "str_" ++ k ++ "_alone"])
+
+/-- Every edge-whitespace probe came back unchanged, and a `None` next to `''` / next to whitespace-only strings
+    is coerced exactly like a `None` next to any other str (pandas does not take `''` or blanks for missing). -/
+def edgeStringsAsModelled (tbl : List (String × String)) : Bool :=
+  edgeStringProbes.all (fun k => tagOf tbl k == "same") &&
+  tagOf tbl "str_empty_mixed_missing" == tagOf tbl "str_mixed_missing" &&
+  tagOf tbl "str_space_mixed_missing" == tagOf tbl "str_mixed_missing"
+
+/-- The model's reading of present entries (`str s` stays `str s` — for `''` and strings with edge whitespace too;
+    an int in a column without missing entries stays an int) is what the reflected table says. -/
 def presentAsModelled (tbl : List (String × String)) : Bool :=
-  tagOf tbl "str_mixed_present" == "str" && tagOf tbl "str_full_present" == "str" && tagOf tbl "int_full_present" == "int"
+  tagOf tbl "str_mixed_present" == "str" && tagOf tbl "str_full_present" == "str" && tagOf tbl "int_full_present" == "int" &&
+  edgeStringsAsModelled tbl
 
 end Fsic.Tools
